@@ -401,7 +401,14 @@ func (h kvHandler) handleKvBatchRollback(req *kvrpcpb.BatchRollbackRequest) *kvr
 func (h kvHandler) handleKvScanLock(req *kvrpcpb.ScanLockRequest) *kvrpcpb.ScanLockResponse {
 	startKey := MvccKey(h.startKey).Raw()
 	endKey := MvccKey(h.endKey).Raw()
-	locks, err := h.mvccStore.ScanLock(startKey, endKey, req.GetMaxVersion())
+	scanLock := h.mvccStore.ScanLock
+	if s, ok := h.mvccStore.(interface {
+		ScanLockWithDetails(startKey, endKey []byte, maxTS uint64) ([]*kvrpcpb.LockInfo, error)
+	}); ok {
+		// The client decides how to resolve a lock by its type (e.g. pessimistic locks), so the response needs it.
+		scanLock = s.ScanLockWithDetails
+	}
+	locks, err := scanLock(startKey, endKey, req.GetMaxVersion())
 	if err != nil {
 		return &kvrpcpb.ScanLockResponse{
 			Error: convertToKeyError(err),
